@@ -294,6 +294,9 @@ func (em *evalModel) eval1(t *Term) eval {
 		return bl(args[0].r.Cmp(args[1].r) < 0)
 	case OpRLe:
 		return bl(args[0].r.Cmp(args[1].r) <= 0)
+	case OpRTruncBV:
+		q := new(big.Int).Quo(args[0].r.Num(), args[0].r.Denom()) // truncated toward zero
+		return bv(q.Uint64())
 	case OpBV2Real:
 		return eval{ok: true, r: new(big.Rat).SetInt64(signExt(args[0].u, w))}
 	case OpUBV2Real:
